@@ -12,10 +12,10 @@ RULE = ("cell = (parameter layout n,k,l,Bgbit,t,basebit ; back-end/build ; input
 LAYOUTS = [(2, 10), (3, 7), (3, 10), (4, 8), (8, 4), (16, 2)]
 
 
-def cfg_job(fl, be, n, k, l, bg, seed, modes, entries=15, count=40, pstep=1, coef=1, timeout=1800, tool=None):
-    return Job("%s-%s-n%d-k%d-l%d-bg%d-%s" % (fl, be, n, k, l, bg, modes), "drv_c04", fl, be,
+def cfg_job(fl, be, n, k, l, bg, seed, modes, entries=15, count=40, pstep=1, coef=1, timeout=1800, tool=None, share=0):
+    return Job("%s-%s-n%d-k%d-l%d-bg%d-%s%s" % (fl, be, n, k, l, bg, modes, "-sharedparams" if share else ""), "drv_c04", fl, be,
                ["--seed", seed, "--n", n, "--k", k, "--l", l, "--Bgbit", bg, "--modes", modes, "--entries", entries,
-                "--count", count, "--pstep", pstep, "--coefdomain", coef], timeout=timeout, tool=tool,
+                "--count", count, "--pstep", pstep, "--coefdomain", coef, "--shareparams", share], timeout=timeout, tool=tool,
                meta={"leaks": False})
 
 
@@ -30,6 +30,9 @@ def run(tier, seed, t0):
             jobs.append(cfg_job("optim", be, 1, 1, 3, 7, seed, "bc", pstep=32, count=24))
             jobs.append(cfg_job("optim", be, 64, 1, 3, 7, seed, "b", count=24))
         jobs.append(cfg_job("optim", "spqlios-fma", 630, 1, 3, 7, seed, "b", count=16))
+        # the in/out parameters are the very object of the accumulator's extracted parameters (n = N): keys still differ
+        jobs.append(cfg_job("optim", "spqlios-fma", 1024, 1, 3, 7, seed + 4, "b", count=10, entries=3, share=1))
+        jobs.append(cfg_job("optim", "nayuki-portable", 1024, 1, 2, 10, seed + 4, "b", count=6, entries=15, share=1))
         jobs.append(cfg_job("optim", "spqlios-fma", 1100, 1, 2, 10, seed, "b", count=8))
         jobs.append(cfg_job("optim", "fftw", 16, 2, 4, 8, seed, "bcd", pstep=16, count=16))
         jobs.append(cfg_job("optim", "spqlios-avx", 16, 1, 3, 10, seed, "bc", pstep=16, count=16))
@@ -52,6 +55,9 @@ def run(tier, seed, t0):
                 jobs.append(cfg_job("optim", be, n, 1, 2 if n != 1024 else 3, 10 if n != 1024 else 7, seed + 2, "b", count=24, timeout=3600))
             jobs.append(cfg_job("debug", be, 8, 1, 3, 7, seed, "abc", pstep=32, count=16, entries=3, coef=(0 if "nayuki" in be else 1), timeout=3600))
         jobs.append(cfg_job("optim", "spqlios-fma", 1100, 2, 3, 7, seed + 3, "b", count=12, timeout=3600))
+        for be in vbuild.BACKENDS:
+            jobs.append(cfg_job("optim", be, 1024, 1, 3, 7, seed + 4, "b", count=16, entries=15, share=1, timeout=3600))
+        jobs.append(cfg_job("optim", "spqlios-fma", 2048, 2, 2, 10, seed + 4, "b", count=8, entries=3, share=1, timeout=3600))
         jobs.append(cfg_job("asan", "spqlios-fma", 1100, 1, 2, 10, seed, "b", count=3, entries=15, timeout=3600))
         jobs.append(cfg_job("asan", "nayuki-portable", 1025, 1, 3, 7, seed, "b", count=3, entries=5, timeout=3600))
         for be in vbuild.BACKENDS:
